@@ -44,7 +44,13 @@ def plan_history(ch, params, prog):
                 restarted = restarted or kind == "restart"
         kind = ch.weighted([5, 3, 1], "opkind") if k > 0 else 0  # render / get / other method
         if kind == 0:
-            ops.append({"op": "render", "type": ["document", "fragment"][ch.weighted([2, 1], "rtype")]})
+            op = {"op": "render", "type": ["document", "fragment"][ch.weighted([2, 1], "rtype")]}
+            if k > 0 and ch.chance(1, 5, "render_fails"):
+                # a render that is abandoned at a user callback (EXC@i): whatever it leaves behind must not keep a LATER
+                # render from caching / announcing its scripts correctly (seeded change C19e-2)
+                op["fault_at"] = 1 + ch.draw(6, "fault_at")
+                op["exc"] = ch.draw(len(world.exc_kinds()), "exc")
+            ops.append(op)
         elif kind == 1:
             ops.append({"op": "get", "pick": ch.draw(6, "urlkind"), "a": ch.draw(16, "url_a"), "b": ch.draw(8, "url_b")})
         else:
@@ -167,10 +173,16 @@ class Worker:
             elif op["op"] == "render":
                 if self.too_big:
                     continue
+                self.w.begin_op(fault_at=op.get("fault_at"), exc_kind=op.get("exc", 0))
                 try:
                     html = Template(emit.page_source(self.prog)).render(Context(dict(self.prog["ctx"])))
                     final = render_dependencies(str(html), type=op["type"])
                 except Exception as e:
+                    fired = self.w.main.fired
+                    if fired is not None and fired[2] is e:
+                        self.stats["fault:EXC@callback"] = self.stats.get("fault:EXC@callback", 0) + 1
+                        self.log.append(["render", op["type"], "abandoned at an injected callback exception"])
+                        continue
                     if self.expected_error == type(e).__name__:
                         self.log.append(["render", op["type"], "raises " + self.expected_error + " (as the model predicts)"])
                         continue
